@@ -414,6 +414,96 @@ py::object PyTreeSpec::ToPickleable() const {
         node.num_nodes = thread_safe_cast<ssize_t>(t[6]);
     }
     out->m_traversal.shrink_to_fit();
+
+    // Validate the post-order traversal: every node must own exactly `arity` complete subtrees, and
+    // the metadata of each node must describe exactly `arity` children.
+    const auto malformed = []() -> std::runtime_error {
+        return std::runtime_error("Malformed pickled PyTreeSpec.");
+    };
+    auto pending = reserved_vector<std::pair<ssize_t, ssize_t>>(4);  // (num_leaves, num_nodes)
+    for (const Node& node : out->m_traversal) {
+        if (node.arity < 0 || node.arity > py::ssize_t_cast(pending.size())) [[unlikely]] {
+            throw malformed();
+        }
+        ssize_t num_leaves = (node.kind == PyTreeKind::Leaf ? 1 : 0);
+        ssize_t num_nodes = 1;
+        for (ssize_t i = 0; i < node.arity; ++i) {
+            num_leaves += pending.back().first;
+            num_nodes += pending.back().second;
+            pending.pop_back();
+        }
+        if (node.num_leaves != num_leaves || node.num_nodes != num_nodes) [[unlikely]] {
+            throw malformed();
+        }
+        ssize_t expected_arity = node.arity;
+        switch (node.kind) {
+            case PyTreeKind::Leaf: {
+                expected_arity = 0;
+                break;
+            }
+            case PyTreeKind::None: {
+                if (none_is_leaf) [[unlikely]] {
+                    throw malformed();
+                }
+                expected_arity = 0;
+                break;
+            }
+            case PyTreeKind::Dict:
+            case PyTreeKind::OrderedDict: {
+                expected_arity = ListGetSize(node.node_data);
+                break;
+            }
+            case PyTreeKind::DefaultDict: {
+                if (!PyTuple_Check(node.node_data.ptr()) || TupleGetSize(node.node_data) != 2 ||
+                    !PyList_Check(TupleGetItem(node.node_data, 1).ptr())) [[unlikely]] {
+                    throw malformed();
+                }
+                expected_arity = ListGetSize(TupleGetItem(node.node_data, 1));
+                break;
+            }
+            case PyTreeKind::Deque: {
+                if (!node.node_data.is_none() && !PyLong_Check(node.node_data.ptr())) [[unlikely]] {
+                    throw malformed();
+                }
+                break;
+            }
+            case PyTreeKind::NamedTuple: {
+                if (!IsNamedTupleClass(node.node_data)) [[unlikely]] {
+                    throw malformed();
+                }
+                expected_arity = TupleGetSize(NamedTupleGetFields(node.node_data));
+                break;
+            }
+            case PyTreeKind::StructSequence: {
+                if (!IsStructSequenceClass(node.node_data)) [[unlikely]] {
+                    throw malformed();
+                }
+                expected_arity = TupleGetSize(StructSequenceGetFields(node.node_data));
+                break;
+            }
+            case PyTreeKind::Custom: {
+                if (node.node_entries) [[unlikely]] {
+                    expected_arity = TupleGetSize(node.node_entries);
+                }
+                break;
+            }
+            case PyTreeKind::Tuple:
+            case PyTreeKind::List:
+                break;
+            default:
+                INTERNAL_ERROR();
+        }
+        if (node.arity != expected_arity) [[unlikely]] {
+            throw malformed();
+        }
+        if (node.original_keys && ListGetSize(node.original_keys) != node.arity) [[unlikely]] {
+            throw malformed();
+        }
+        pending.emplace_back(num_leaves, num_nodes);
+    }
+    if (pending.size() != 1) [[unlikely]] {
+        throw malformed();
+    }
     PYTREESPEC_SANITY_CHECK(*out);
     return out;
 }
